@@ -1,5 +1,5 @@
 import PeliteModel.Spec.Dirs
-import PeliteModel.Lemmas.Typed
+import PeliteModel.Thm.C05
 /-! Helper lemmas for C15 (binary search, sorted function tables, POGO iterator, safety of the decoders). -/
 namespace Pelite.Dirs
 open Pelite Pelite.Pe
@@ -953,5 +953,133 @@ theorem securityTryFrom_okOrErr (v : View) (hb : v.img.base % 4 = 0) : OkOrErr (
             by_cases hin : va ≤ va + size ∧ va + size ≤ v.b.size
             · rw [if_pos hin, if_neg (by omega), if_neg (by omega)]; exact okOrErr_ok _
             · rw [if_neg hin]; exact okOrErr_err _
+
+/-! ### fixed-size record tables (debug: 28-byte records, exception: 12-byte records) -/
+
+/-- the shape shared by `Debug::try_from` and `Exception::try_from` -/
+def tableTryFrom (v : View) (idx recSize : Nat) : Out Ref :=
+  match v.dataDir idx with
+  | none => .err .bounds
+  | some (va, size) =>
+    if size % recSize ≠ 0 then .err .invalid
+    else v.dervaSlice (.rva va) recSize 4 (size / recSize)
+
+theorem debugTryFrom_eq (v : View) : debugTryFrom v = tableTryFrom v 6 28 := rfl
+theorem excTryFrom_eq (v : View) : excTryFrom v = tableTryFrom v 3 12 := rfl
+
+theorem tableTryFrom_ok_iff (v : View) (idx recSize : Nat) (hr : recSize < 4294967296) (t : Ref) :
+    tableTryFrom v idx recSize = .ok t ↔
+      ∃ va size, v.dataDir idx = some (va, size) ∧ size % recSize = 0 ∧
+        ∃ s, v.at (.rva va) size 4 = .ok s ∧ t = ⟨s.off, size, 4⟩ := by
+  unfold tableTryFrom
+  cases hd : v.dataDir idx with
+  | none =>
+    simp only
+    constructor
+    · intro h; cases h
+    · rintro ⟨va, size, h, _⟩; cases h
+  | some p =>
+    obtain ⟨va, size⟩ := p
+    obtain ⟨l1, l2⟩ := dataDir_lt hd
+    simp only
+    by_cases hm : size % recSize ≠ 0
+    · rw [if_pos hm]
+      constructor
+      · intro h; cases h
+      · rintro ⟨va', size', h, h', _⟩; cases h; exact absurd h' hm
+    · rw [if_neg hm]
+      have hm' : size % recSize = 0 := by omega
+      have e : recSize * (size / recSize) = size := Nat.mul_div_cancel' (Nat.dvd_of_mod_eq_zero hm')
+      unfold View.dervaSlice
+      rw [e, if_neg (by omega)]
+      constructor
+      · intro h
+        cases ha : v.at (.rva va) size 4 with
+        | ok s => rw [ha] at h; cases h; exact ⟨va, size, rfl, hm', s, ha, rfl⟩
+        | err e => rw [ha] at h; cases h
+        | panic s => rw [ha] at h; cases h
+        | ub s => rw [ha] at h; cases h
+        | diverge => rw [ha] at h; cases h
+      · rintro ⟨va', size', h, _, s, hs, rfl⟩
+        cases h
+        rw [hs]
+
+theorem tableTryFrom_errors (v : View) (idx recSize : Nat) :
+    (v.dataDir idx = none → tableTryFrom v idx recSize = .err .bounds) ∧
+    (∀ va size, v.dataDir idx = some (va, size) → size % recSize ≠ 0 → tableTryFrom v idx recSize = .err .invalid) ∧
+    (∀ size, v.dataDir idx = some (0, size) → size % recSize = 0 → tableTryFrom v idx recSize = .err .null) := by
+  unfold tableTryFrom
+  refine ⟨fun h => by rw [h], fun va size h hm => by rw [h]; simp only; rw [if_pos hm], fun size h hm => ?_⟩
+  rw [h]
+  simp only
+  rw [if_neg (by omega)]
+  unfold View.dervaSlice
+  split
+  · -- recSize * (size / recSize) ≤ size < 2^32
+    rename_i ho
+    have := dataDir_lt h
+    have : recSize * (size / recSize) ≤ size := Nat.mul_div_le size recSize
+    omega
+  · rw [(C05_null v _ 4).1]
+
+theorem tableTryFrom_safe (v : View) (idx recSize : Nat) :
+    OkOrErr (tableTryFrom v idx recSize) ∧
+    ∀ t, tableTryFrom v idx recSize = .ok t → RefOK v.img t ∧ t.align = 4 := by
+  unfold tableTryFrom
+  cases hd : v.dataDir idx with
+  | none => exact ⟨okOrErr_err _, fun _ h => by cases h⟩
+  | some p =>
+    obtain ⟨va, size⟩ := p
+    simp only
+    split
+    · exact ⟨okOrErr_err _, fun _ h => by cases h⟩
+    · obtain ⟨h1, h2⟩ := dervaSlice_safe v (.rva va) recSize 4 (size / recSize) isPow2_4
+      exact ⟨h1, fun t ht => ⟨(h2 t ht).1, (h2 t ht).2.2⟩⟩
+
+/-! ### zero-terminated VA lists -/
+
+theorem vaListUntilZero_eq (b : Bytes) (ps : Nat) :
+    ∀ (n off avail : Nat), n + 1 ≤ avail → leN b (off + n * ps) ps = 0 →
+      (∀ j, j < n → leN b (off + j * ps) ps ≠ 0) →
+      Spec.vaListUntilZero b off ps avail = some ((List.range n).map fun j => leN b (off + j * ps) ps) := by
+  intro n
+  induction n with
+  | zero =>
+    intro off avail h1 h2 _
+    obtain ⟨a, rfl⟩ : ∃ a, avail = a + 1 := ⟨avail - 1, by omega⟩
+    unfold Spec.vaListUntilZero
+    simp only [Nat.zero_mul, Nat.add_zero] at h2
+    simp [h2]
+  | succ n ih =>
+    intro off avail h1 h2 h3
+    obtain ⟨a, rfl⟩ : ∃ a, avail = a + 1 := ⟨avail - 1, by omega⟩
+    unfold Spec.vaListUntilZero
+    have h0 := h3 0 (by omega)
+    simp only [Nat.zero_mul, Nat.add_zero] at h0
+    simp only [h0, if_false]
+    have e : ∀ j, off + ps + j * ps = off + (j + 1) * ps := fun j => by rw [Nat.succ_mul]; omega
+    rw [ih (off + ps) a (by omega) (by rw [e]; exact h2) (fun j hj => by rw [e]; exact h3 (j + 1) (by omega))]
+    simp only [Option.map_some, Option.some.injEq]
+    rw [List.range_succ_eq_map, List.map_cons, List.map_map]
+    simp only [Nat.zero_mul, Nat.add_zero, List.cons.injEq, true_and]
+    apply List.map_congr_left
+    intro j _
+    simp only [Function.comp, e]
+
+theorem vaListUntilZero_none (b : Bytes) (ps : Nat) :
+    ∀ (avail off : Nat), (∀ j, j < avail → leN b (off + j * ps) ps ≠ 0) →
+      Spec.vaListUntilZero b off ps avail = none := by
+  intro avail
+  induction avail with
+  | zero => intro off _; rfl
+  | succ a ih =>
+    intro off h
+    unfold Spec.vaListUntilZero
+    have h0 := h 0 (by omega)
+    simp only [Nat.zero_mul, Nat.add_zero] at h0
+    simp only [h0, if_false]
+    have e : ∀ j, off + ps + j * ps = off + (j + 1) * ps := fun j => by rw [Nat.succ_mul]; omega
+    rw [ih (off + ps) (fun j hj => by rw [e]; exact h (j + 1) (by omega))]
+    rfl
 
 end Pelite.Dirs
